@@ -251,7 +251,8 @@ def tr31_unwrap(kbpk, s):
     return f, blks, clear[2:2 + bits // 8]
 
 
-def tr31_wrap(kbpk, fields, blks, key, pad, rng=None, ext_all=False, lower=False, pb_size=None, pb_ext=False, ll=2):
+def tr31_wrap(kbpk, fields, blks, key, pad, rng=None, ext_all=False, lower=False, pb_size=None, pb_ext=False, ll=2,
+              pb_fill="0", pb_pos="last"):
     """Independent wrap with encoding freedoms: `pad` = the random key padding bytes (its length
     decides how many padding blocks), ext_all = every optional block in extended-length form,
     lower = lower-case hex in the binary section, pb_size = extra multiples of the block size in the pad block."""
@@ -266,18 +267,31 @@ def tr31_wrap(kbpk, fields, blks, key, pad, rng=None, ext_all=False, lower=False
         else:
             bt += bid + "%02X" % (len(data) + 4) + data
     n = len(blks)
+    pbtxt = ""
     if pb_ext and (len(bt) % bs or pb_size):
         # the pad block itself in extended-length form: PB 00 <length of length> <length> filler
         over = 6 + 2 * ll
         padn = (-(len(bt) + over)) % bs + bs * (pb_size or 0)
-        bt += "PB" + "00" + "%02X" % ll + ("%0" + str(2 * ll) + "X") % (over + padn) + "0" * padn
-        n += 1
+        pbtxt = "PB" + "00" + "%02X" % ll + ("%0" + str(2 * ll) + "X") % (over + padn) + pb_fill * padn
     elif len(bt) % bs or pb_size:
         padn = (-(len(bt) + 4)) % bs + bs * (pb_size or 0)
         if padn == 0 and not pb_size:
             padn = bs
-        bt += "PB" + "%02X" % (4 + padn) + "0" * padn
+        pbtxt = "PB" + "%02X" % (4 + padn) + pb_fill * padn
+    if pbtxt:
         n += 1
+        if pb_pos == "first" or not blks:
+            bt = (pbtxt + bt) if pb_pos == "first" else bt + pbtxt
+        elif pb_pos == "middle" and len(blks) >= 2:
+            # between the first and the second data block (the standard does not fix the pad block's place)
+            first = blks[0]
+            l2 = ll if len(first[1]) + 6 + 2 * ll < 16 ** (2 * ll) else 2
+            first_txt = (first[0] + "00" + "%02X" % l2 + ("%0" + str(2 * l2) + "X") % (len(first[1]) + 6 + 2 * l2) + first[1]) if (
+                ext_all or len(first[1]) + 4 > 255) else (first[0] + "%02X" % (len(first[1]) + 4) + first[1])
+            assert bt.startswith(first_txt)
+            bt = first_txt + pbtxt + bt[len(first_txt):]
+        else:
+            bt += pbtxt
     clear = (8 * len(key)).to_bytes(2, "big") + key + pad
     assert len(clear) % bs == 0
     total = 16 + len(bt) + 2 * len(clear) + 2 * ml
